@@ -1476,3 +1476,209 @@ def seed_C14(m):
         return {"clause": r, "latitude": inp["latitude"], "longitude": inp["longitude"],
                 "date": inp["date"], "zone": inp["zone"], "which": m["function"]}
     return None
+
+
+# ------------------------------------------------------------------ C18
+def _c18_scan(db):
+    import zoneinfo
+    import astral.geocoder as geo
+    import astral.sun as sun
+    from astral import Observer
+    seen = {}
+    n = 0
+    for r in geo.all_locations(db):
+        n += 1
+        ident = "%s,%s" % (r.name, r.region)
+        if not isinstance(r.name, str) or r.name == "":
+            return "record %r has an empty name" % (ident,)
+        if not (type(r.latitude) is float and -90.0 <= r.latitude <= 90.0):
+            return "record %s: latitude %r not in [-90, 90]" % (ident, r.latitude)
+        if not (type(r.longitude) is float and -180.0 <= r.longitude <= 180.0):
+            return "record %s: longitude %r not in [-180, 180]" % (ident, r.longitude)
+        try:
+            tz = zoneinfo.ZoneInfo(r.timezone)
+        except Exception as exc:  # noqa: BLE001
+            return "record %s: time zone %r does not resolve (%r)" % (ident, r.timezone, exc)
+        dt = datetime.datetime(2021, 1, 15, 12, tzinfo=tz)
+        std = (dt.utcoffset() - (dt.dst() or datetime.timedelta(0))).total_seconds() / 3600.0
+        diff = (std - r.longitude / 15.0 + 12.0) % 24.0 - 12.0
+        if abs(diff) > 2.5:
+            return "record %s: zone %s (UTC%+.2f) is %.2f h from mean solar time at longitude %.3f" % (
+                ident, r.timezone, std, diff, r.longitude)
+        noon = sun.noon(Observer(r.latitude, r.longitude), datetime.date(2021, 3, 20),
+                        datetime.timezone(datetime.timedelta(hours=std)))
+        mins = noon.hour * 60 + noon.minute
+        if not (9 * 60 + 10 <= mins <= 14 * 60 + 50):
+            return "record %s: solar noon at %s standard time" % (ident, noon.time())
+        if (r.name, r.region) in seen:
+            return "(name, region) pair %s occurs twice" % (ident,)
+        seen[(r.name, r.region)] = True
+    return None if n > 0 else "the built-in database is empty"
+
+
+def search_C18(rng, deadline, broken):
+    import astral.geocoder as geo
+    r = _c18_scan(geo.database())
+    if r:
+        return {"clause": r, "sequence": "fresh database()"}
+    # a customised database must not leak into the next fresh one
+    db = geo.database()
+    some = list(geo.all_locations(db))[:40]
+    for rec in some:
+        geo.add_locations(["%s,%s,%s,10°0'N,10°0'E" % (rec.name, rec.region + " x", rec.timezone)], db)
+    for rec in some[:5]:
+        try:
+            rec.longitude = -rec.longitude - 75.0
+        except Exception:  # noqa: BLE001
+            pass
+    r = _c18_scan(geo.database())
+    if r:
+        return {"clause": r, "sequence": "database(); add same-name records and edit looked-up "
+                                         "records in it; then a fresh database()"}
+    return None
+
+
+def replay_C18(fi):
+    return search_C18(None, 0, None) is None
+
+
+# ------------------------------------------------------------------ C19
+def _c19_location(seed):
+    """real calls: every Location method must equal the direct library call"""
+    import zoneinfo
+    import astral.sun as sun
+    import astral.moon as moon
+    from astral import LocationInfo, Observer, SunDirection
+    from astral.location import Location
+    rng = random.Random(seed)
+    tzs = ["Europe/London", "Asia/Tokyo", "Pacific/Apia", "America/New_York", "Asia/Kolkata"]
+    loc = Location(LocationInfo("n", "r", rng.choice(tzs), rng.uniform(-60, 60), rng.uniform(-180, 180)))
+    hist = []
+    # warm caches, then change attributes, then compare
+    try:
+        loc.noon(datetime.date(2021, 3, 4))
+        loc.observer
+    except Exception:  # noqa: BLE001
+        pass
+    for _ in range(rng.randint(0, 4)):
+        k = rng.random()
+        if k < 0.35:
+            loc.longitude = rng.uniform(-180, 180)
+            hist.append("longitude")
+        elif k < 0.6:
+            loc.latitude = rng.uniform(-60, 60)
+            hist.append("latitude")
+        elif k < 0.8:
+            loc.timezone = rng.choice(tzs)
+            hist.append("timezone")
+        else:
+            loc.solar_depression = rng.choice(["civil", "nautical", 7.5])
+            hist.append("solar_depression")
+    d = datetime.date.fromordinal(rng.randint(693596, 767010))
+    elev = rng.choice([0.0, rng.uniform(0, 2000)])
+    local = rng.random() < 0.6
+    tz = zoneinfo.ZoneInfo(loc.timezone) if local else datetime.timezone.utc
+    o = Observer(loc.latitude, loc.longitude, elev)
+    o0 = Observer(loc.latitude, loc.longitude, 0.0)
+    di = rng.choice([SunDirection.RISING, SunDirection.SETTING])
+    pairs = [
+        ("sun", lambda: loc.sun(d, local, elev), lambda: sun.sun(o, d, loc.solar_depression, tz)),
+        ("dawn", lambda: loc.dawn(d, local, elev), lambda: sun.dawn(o, d, loc.solar_depression, tz)),
+        ("dusk", lambda: loc.dusk(d, local, elev), lambda: sun.dusk(o, d, loc.solar_depression, tz)),
+        ("sunrise", lambda: loc.sunrise(d, local, elev), lambda: sun.sunrise(o, d, tz)),
+        ("sunset", lambda: loc.sunset(d, local, elev), lambda: sun.sunset(o, d, tz)),
+        ("noon", lambda: loc.noon(d, local), lambda: sun.noon(o0, d, tz)),
+        ("midnight", lambda: loc.midnight(d, local), lambda: sun.midnight(o0, d, tz)),
+        ("daylight", lambda: loc.daylight(d, local, elev), lambda: sun.daylight(o, d, tz)),
+        ("night", lambda: loc.night(d, local, elev), lambda: sun.night(o, d, tz)),
+        ("twilight", lambda: loc.twilight(d, di, local, elev), lambda: sun.twilight(o, d, di, tz)),
+        ("golden_hour", lambda: loc.golden_hour(di, d, local, elev), lambda: sun.golden_hour(o, d, di, tz)),
+        ("blue_hour", lambda: loc.blue_hour(di, d, local, elev), lambda: sun.blue_hour(o, d, di, tz)),
+        ("rahukaalam", lambda: loc.rahukaalam(d, local, elev), lambda: sun.rahukaalam(o, d, tzinfo=tz)),
+        ("moonrise", lambda: loc.moonrise(d, local), lambda: moon.moonrise(o0, d, tz)),
+        ("moonset", lambda: loc.moonset(d, local), lambda: moon.moonset(o0, d, tz)),
+        ("time_at_elevation", lambda: loc.time_at_elevation(8.0, d, di, local),
+         lambda: sun.time_at_elevation(o0, 8.0, d, di, tz)),
+        ("moon_phase", lambda: loc.moon_phase(d), lambda: moon.phase(d)),
+    ]
+    naive = datetime.datetime(d.year, d.month, d.day, rng.randint(0, 23), rng.randint(0, 59))
+    inzone = naive.replace(tzinfo=zoneinfo.ZoneInfo(loc.timezone))
+    pairs += [
+        ("solar_azimuth", lambda: loc.solar_azimuth(naive, elev), lambda: sun.azimuth(o, inzone)),
+        ("solar_elevation", lambda: loc.solar_elevation(naive, elev), lambda: sun.elevation(o, inzone)),
+        ("solar_zenith", lambda: loc.solar_zenith(naive, elev), lambda: 90.0 - sun.elevation(o, inzone)),
+    ]
+    for name, a, b in pairs:
+        ra, rb = _try(a), _try(b)
+        if ra[0] != rb[0] or (ra[0] == "ok" and ra[1] != rb[1] and not (
+                isinstance(ra[1], float) and abs(ra[1] - rb[1]) < 1e-9)):
+            return {"clause": "Location.%s gives %s but the library function for the location's "
+                              "coordinates/elevation/depression/zone gives %s" % (name, ra, rb),
+                    "seed": seed, "history": hist, "date": d.isoformat(), "local": local}
+    return None
+
+
+def _c19_cli(seed):
+    import subprocess
+    import zoneinfo
+    import astral.sun as sun
+    from astral import Observer
+    rng = random.Random(seed)
+    lat, lon = round(rng.uniform(-60, 60), 4), round(rng.uniform(-180, 180), 4)
+    elev = rng.choice([None, round(rng.uniform(0, 2000), 1)])
+    d = datetime.date.fromordinal(rng.randint(693596, 767010))
+    tzname = rng.choice([None, "Europe/London", "Asia/Tokyo", "Pacific/Auckland", "Pacific/Honolulu",
+                         "America/New_York"])
+    argv = [sys.executable, "-m", "astral", "-n", "H", "-r", "R", "-d", d.isoformat()]
+    if tzname:
+        argv += ["-t", tzname]
+    argv += ["--", repr(lat), repr(lon)] + ([repr(elev)] if elev is not None else [])
+    p = subprocess.run(argv, stdout=subprocess.PIPE, stderr=subprocess.PIPE, timeout=60)
+    if p.returncode != 0:
+        return {"clause": "the command line exits with status %d: %s" % (p.returncode,
+                                                                          p.stderr.decode()[-200:]),
+                "argv": argv[1:]}
+    try:
+        out = json.loads(p.stdout.decode())
+    except Exception as exc:  # noqa: BLE001
+        return {"clause": "output is not one JSON object (%r)" % (exc,), "argv": argv[1:]}
+    tz = zoneinfo.ZoneInfo(tzname) if tzname else datetime.timezone.utc
+    fmt = "%Y-%m-%dT%H:%M:%S" + ("%z" if tzname else "Z")
+    want = sun.sun(Observer(lat, lon, elev if elev is not None else 0.0), d, tzinfo=tz)
+    for k, v in want.items():
+        if out.get(k) != v.strftime(fmt):
+            return {"clause": "command line prints %s=%s, the library gives %s" % (k, out.get(k), v.strftime(fmt)),
+                    "argv": argv[1:]}
+    if out.get("location") != "H, R" or out.get("timezone") != (tzname or "UTC"):
+        return {"clause": "labels %r / %r" % (out.get("timezone"), out.get("location")), "argv": argv[1:]}
+    return None
+
+
+def search_C19(rng, deadline, broken):
+    i = 0
+    while time.time() < deadline:
+        s = rng.randint(0, 2**31)
+        i += 1
+        try:
+            r = _c19_location(s)
+        except Exception as exc:  # noqa: BLE001
+            r = {"clause": "raised %r" % (exc,), "seed": s}
+        if r:
+            r["kind"] = "location"
+            return r
+        if i % 5 == 0:
+            try:
+                r = _c19_cli(s)
+            except Exception as exc:  # noqa: BLE001
+                r = {"clause": "raised %r" % (exc,), "seed": s}
+            if r:
+                r["kind"] = "cli"
+                r["seed"] = s
+                return r
+    return None
+
+
+def replay_C19(fi):
+    if fi.get("kind") == "cli":
+        return _c19_cli(fi["seed"]) is None
+    return _c19_location(fi["seed"]) is None
